@@ -284,6 +284,7 @@ class Liveness:
                 break
             self.param_consts = pc
         self._fold_ifexp()
+        self._noneness()
         self._certain()
 
     def _fold_ifexp(self):
@@ -304,6 +305,152 @@ class Liveness:
                         return node
                     return node.body if v else node.orelse
             F().visit(fn)
+
+    def _noneness(self):
+        """`x is None` / `x is not None` tests on a local whose None-ness is known on every path reaching the test: the arm
+        that cannot be taken is only *possibly* live (never refuted from).  Values: "N" (None), "NN" (not None), "U".
+        Parameters with default None that no call site of the package passes are None (the schedule classes are the entry
+        points); locals taken from the literal parameter dictionary have the literal's None-ness; a call of a package
+        function all of whose returns are non-None expressions, arithmetic, comparisons and displays are not None."""
+        passed = {}
+        for rel, m in self.repo.modules.items():
+            for node in ast.walk(m.tree):
+                if isinstance(node, ast.Call):
+                    nm = node.func.id if isinstance(node.func, ast.Name) else (node.func.attr if isinstance(node.func, ast.Attribute) else None)
+                    if nm in self.funcs:
+                        passed.setdefault(nm, []).append(node)
+
+        def returns_value(fname, depth=0):
+            rel, fn = self.funcs[fname]
+            rets = [n for n in ast.walk(fn) if isinstance(n, ast.Return)]
+            def valued(e):
+                if isinstance(e, ast.Constant):
+                    return e.value is not None
+                if isinstance(e, (ast.BinOp, ast.Tuple, ast.List, ast.Compare)):
+                    return True
+                return isinstance(e, ast.Call) and isinstance(e.func, ast.Name) and e.func.id in ("int", "float", "max", "min", "len", "abs")
+            return bool(rets) and all(r.value is not None and valued(r.value) for r in rets)
+        for fname in sorted(self.live_funcs):
+            rel, fn = self.funcs[fname]
+            cenv, dn = self.env_of(fname)
+            env = {}
+            a = fn.args
+            pos = [x.arg for x in a.args]
+            defaults = dict(zip(pos[len(pos) - len(a.defaults):], a.defaults))
+            for kw, d in zip(a.kwonlyargs, a.kw_defaults):
+                if d is not None:
+                    defaults[kw.arg] = d
+            calls = passed.get(fname, [])
+            for p_, d in defaults.items():
+                if not (isinstance(d, ast.Constant) and d.value is None) or not calls:
+                    continue
+                given = False
+                for c in calls:
+                    if any(isinstance(x, ast.Starred) for x in c.args) or any(k.arg is None for k in c.keywords):
+                        given = True
+                    if p_ in pos and len(c.args) > pos.index(p_):
+                        given = True
+                    if any(k.arg == p_ for k in c.keywords):
+                        given = True
+                if not given:
+                    env[p_] = "N"
+
+            def val(e, env):
+                if isinstance(e, ast.Constant):
+                    return "N" if e.value is None else "NN"
+                if isinstance(e, ast.Name):
+                    if e.id in env:
+                        return env[e.id]
+                    if e.id in cenv and cenv[e.id] is not UNKNOWN:
+                        return "N" if cenv[e.id] is None else "NN"
+                    return "U"
+                if isinstance(e, (ast.BinOp, ast.Compare, ast.BoolOp, ast.List, ast.Tuple, ast.Dict, ast.ListComp, ast.JoinedStr)):
+                    return "NN" if not isinstance(e, ast.BoolOp) else "U"
+                if isinstance(e, ast.Call) and isinstance(e.func, ast.Name):
+                    if e.func.id in ("max", "min", "len", "int", "float", "abs", "sum", "list", "dict", "tuple", "range"):
+                        return "NN"
+                    if e.func.id in self.funcs and returns_value(e.func.id):
+                        return "NN"
+                    return "U"
+                if isinstance(e, ast.Subscript):
+                    v = ev_const(e, cenv, dn, self.lit)
+                    if v is not UNKNOWN:
+                        return "N" if v is None else "NN"
+                    return "U"
+                if isinstance(e, ast.IfExp):
+                    x, y = val(e.body, env), val(e.orelse, env)
+                    return x if x == y else "U"
+                return "U"
+
+            def join(e1, e2):
+                if e1 is None:
+                    return e2
+                if e2 is None:
+                    return e1
+                return {k: (e1.get(k, "U") if e1.get(k, "U") == e2.get(k, "U") else "U") for k in set(e1) | set(e2)}
+
+            def none_test(t, env):
+                """True / False / None for the outcome of an `x is [not] None` test"""
+                if isinstance(t, ast.Compare) and len(t.ops) == 1 and isinstance(t.ops[0], (ast.Is, ast.IsNot)) \
+                        and isinstance(t.comparators[0], ast.Constant) and t.comparators[0].value is None \
+                        and isinstance(t.left, ast.Name):
+                    v = val(t.left, env)
+                    if v == "U":
+                        return None
+                    return (v == "N") == isinstance(t.ops[0], ast.Is)
+                return None
+
+            def run(stmts, env):
+                for st in stmts:
+                    if env is None:
+                        return None
+                    if isinstance(st, ast.Assign):
+                        v = val(st.value, env)
+                        for t in st.targets:
+                            for x in ast.walk(t):
+                                if isinstance(x, ast.Name) and isinstance(x.ctx, ast.Store):
+                                    env[x.id] = v if isinstance(t, ast.Name) else "U"
+                    elif isinstance(st, (ast.AugAssign, ast.AnnAssign)):
+                        for x in ast.walk(st.target):
+                            if isinstance(x, ast.Name):
+                                env[x.id] = "NN" if isinstance(st, ast.AugAssign) else "U"
+                    elif isinstance(st, ast.If):
+                        o = none_test(st.test, env)
+                        if o is None:
+                            c = ev_const(st.test, cenv, dn, self.lit)
+                            o = None if c is UNKNOWN else bool(c)
+                            mark = False
+                        else:
+                            mark = True
+                        if o is None and st.body and all(id(d) in self.dead_nodes for d in st.body):
+                            o = False
+                        elif o is None and st.orelse and all(id(d) in self.dead_nodes for d in st.orelse):
+                            o = True
+                        if o is None:
+                            env = join(run(st.body, dict(env)), run(st.orelse, dict(env)))
+                        else:
+                            taken, other = (st.body, st.orelse) if o else (st.orelse, st.body)
+                            if mark:
+                                for d in other:
+                                    for n in ast.walk(d):
+                                        self.maybe_nodes.add(id(n))
+                            env = run(taken, env)
+                    elif isinstance(st, (ast.For, ast.While)):
+                        for x in ast.walk(st):
+                            if isinstance(x, ast.Name) and isinstance(x.ctx, ast.Store):
+                                env[x.id] = "U"
+                        run(st.body, dict(env))
+                        for x in ast.walk(st):
+                            if isinstance(x, ast.Name) and isinstance(x.ctx, ast.Store):
+                                env[x.id] = "U"
+                    elif isinstance(st, (ast.Return, ast.Raise)):
+                        return None
+                    elif isinstance(st, (ast.With, ast.Try)):
+                        for x in ast.walk(st):
+                            if isinstance(x, ast.Name) and isinstance(x.ctx, ast.Store):
+                                env[x.id] = "U"
+                return env
+            run(fn.body, env)
 
     def _certain(self):
         """functions reachable from the entry points through calls that do not sit under a branch on an opaque value;
